@@ -254,7 +254,7 @@ def runs_plan(tier):
               ('S45#lineruns3', (KEY_CONFIGS[4], KEY_CONFIGS[2], KEY_CONFIGS[0]))]
     focus += [('Sthr#%d' % n, (KEY_CONFIGS[0], KEY_CONFIGS[4])) for n in (9, 10, 63, 64)]
     if tier == 'quick':
-        return focus + [('S45#cellruns3', (KEY_CONFIGS[0], KEY_CONFIGS[4])), ('S45#outruns2', (KEY_CONFIGS[0], KEY_CONFIGS[4], KEY_CONFIGS[6]))]
+        return focus + [('S45#cellruns3', (KEY_CONFIGS[0], KEY_CONFIGS[4])), ('S45#outruns2', (KEY_CONFIGS[0], KEY_CONFIGS[4], KEY_CONFIGS[5], KEY_CONFIGS[6]))]
     focus += [('S44#focus:%s' % f, (KEY_CONFIGS[0], KEY_CONFIGS[4])) for f in ('outputs', 'source', 'meta', 'attachments')]
     return focus + _runs_thorough()
 
